@@ -148,8 +148,8 @@ static const char* OPS[] = {
   "add_constraint", "refine_constraint", "add_generator", "affine_image", "affine_preimage",           // 10-14
   "gen_affine_image", "embed", "project", "remove", "remove_higher", "unconstrain", "closure",        // 15-21
   "intersection", "hull", "time_elapse", "concat", "copy",                                             // 22-26
-  "expand", "fold", "map" };                                                                           // 27-29
-static const unsigned NOPS = 30;
+  "expand", "fold", "map", "bounded_affine_image" };                                                   // 27-30
+static const unsigned NOPS = 31;
 
 struct PFunc {
   std::vector<long> m;     // -1 = undefined
@@ -188,7 +188,8 @@ static void one_history(long id, uint64_t seed, long maxdim, unsigned long opmas
       if (binary_same && ds != dt) continue;
       if (op == 25 && ds + dt > (dimension_type) maxdim + 1) continue;
       if ((op == 16 || op == 17) && ds >= (dimension_type) maxdim + 1) continue;
-      if ((op == 13 || op == 14 || op == 15) && ds == 0) continue;
+      if ((op == 13 || op == 14 || op == 15 || op == 30) && ds == 0) continue;
+      if (op == 30 && ds >= (dimension_type) maxdim + 1) continue;
       if (op == 21 && !nnc) continue;
       if (op == 27 && (ds == 0 || ds >= (dimension_type) maxdim + 1)) continue;
       if (op == 28 && ds < 2) continue;
@@ -252,8 +253,8 @@ static void one_history(long id, uint64_t seed, long maxdim, unsigned long opmas
         if (r.chance(1, 5)) e -= e.coefficient(Variable(v)) * Variable(v);
         Coefficient den = r.chance(1, 2) ? 1 : (r.chance(1, 2) ? r.range(2, 3) : r.range(-3, -1));
         if (op == 15) {
-          static const Relation_Symbol rs[] = { LESS_OR_EQUAL, GREATER_OR_EQUAL, EQUAL };
-          Relation_Symbol rel = rs[r.chance(1, 8) ? 2 : r.below(2)];
+          static const Relation_Symbol rs[] = { LESS_OR_EQUAL, GREATER_OR_EQUAL, EQUAL, LESS_THAN, GREATER_THAN };
+          Relation_Symbol rel = rs[(nnc && r.chance(1, 3)) ? 3 + r.below(2) : (r.chance(1, 8) ? 2 : r.below(2))];
           o << " " << s << " " << v << " " << relsym_str(rel) << " " << den; put_expr(o, e, d);
           x.generalized_affine_image(Variable(v), rel, e, den);
         }
@@ -308,6 +309,15 @@ static void one_history(long id, uint64_t seed, long maxdim, unsigned long opmas
         }
         o << " " << s << " " << d; for (dimension_type i = 0; i < d; ++i) o << " " << f.m[i];
         x.map_space_dimensions(f);
+        break; }
+      case 30: {
+        dimension_type v = r.below((unsigned) d);
+        Linear_Expression lb = rnd_expr(r, d, 3, false), ub = rnd_expr(r, d, 3, false);
+        if (r.chance(1, 2)) lb -= lb.coefficient(Variable(v)) * Variable(v);
+        if (r.chance(1, 2)) ub -= ub.coefficient(Variable(v)) * Variable(v);
+        Coefficient den = r.chance(1, 2) ? 1 : (r.chance(1, 2) ? r.range(2, 3) : r.range(-3, -1));
+        o << " " << s << " " << v << " " << den; put_expr(o, lb, d); put_expr(o, ub, d);
+        x.bounded_affine_image(Variable(v), lb, ub, den);
         break; }
       default: {
         // copy construction: slot s := copy of slot t
